@@ -449,7 +449,7 @@ def us_worker(job):
                              rep2=[list(p) for p in rep2], seed=seed + ei),
                         dict(set=win.ints(S2) if not (S2 & win.wide) else 'wide', raw=win.pieces(rep2)),
                         dict(kind=kind, raw=raw))
-                if set_ok and kind == 'noncanonical' and form == PRIMARY[action]:
+                if set_ok and kind == 'noncanonical' and form == PRIMARY[action] and action != 'Assign':
                     # the object still denotes the abstract state: a new REAL state to explore
                     new_states.add((unreal(win, raw), dst))
             if not edge_ok:
@@ -836,7 +836,7 @@ def run_cc(chk: core.Check, conf: dict) -> None:
             while frontier and depth < conf['depth'] and n_states < conf['max_states']:
                 depth += 1
                 n_states += len(frontier)
-                jobs = [(W, ch) for ch in core.chunked(sorted(frontier), 32)]
+                jobs = [(W, ch) for ch in core.chunked(sorted(frontier, key=repr), 32)]
                 frontier = []
                 for stats, fails, new_states, samples in core.pool_map(cc_worker, jobs):
                     add_stats(chk, stats, 'cc_')
